@@ -39,6 +39,18 @@ Definition pts_read (count : option Z) (ls : list line) : option pts_result :=
 Definition pts_prefix (ls : list line) (j m : nat) : list line :=
   firstn j ls ++ (match m with O => [] | _ => [firstn m (nth j ls [])] end).
 
+(* a byte cut that ends INSIDE a number leaves a shorter spelling of it: [PVal v] = what that spelling reads as (the
+   prefix then holds the token v -- it may be a complete valid file of its own), [PBad] = it does not read as a
+   number ("-", "1e", "1e-", "+"), [PNone] = the cut is at a token boundary or after a separator (strings.Fields
+   drops trailing blanks: the same token prefix) *)
+Inductive ptok := PNone | PVal (v : Z) | PBad.
+Definition pts_prefix_p (ls : list line) (j m : nat) (p : ptok) : list line :=
+  match p with
+  | PNone => pts_prefix ls j m
+  | PVal v => firstn j ls ++ [firstn m (nth j ls []) ++ [v]]
+  | PBad => firstn j ls ++ [firstn m (nth j ls []) ++ [0%Z]]
+  end.
+
 (* ---- the property, judged on an implementation result (direct oracle): every value of an Ok result
    is the image of tokens present in the prefix, for exactly the promised number of vertices ---- *)
 Fixpoint zlist_eqb (a b : list Z) : bool :=
